@@ -48,9 +48,8 @@ fn do_input_one_var<S: InterpreterTrait>(
     let new_value: Variant = match q {
         TypeQualifier::BangSingle => Variant::from(parse_single_input(raw_input)?),
         TypeQualifier::DollarString => Variant::from(raw_input),
-        TypeQualifier::PercentInteger => Variant::from(parse_int_input(raw_input)?),
         // the number is converted like any other value stored into a variable of that type:
-        // rounded for LONG, Overflow if it does not fit
+        // rounded for INTEGER and LONG, Overflow if it does not fit
         _ => Variant::from(parse_double_input(raw_input)?).cast(q)?,
     };
     interpreter.context_mut()[index] = new_value;
@@ -82,8 +81,14 @@ fn parse_single_input(s: String) -> Result<f32, RuntimeError> {
     if s.is_empty() {
         Ok(0.0)
     } else {
-        s.parse::<f32>()
-            .map_err(|e| RuntimeError::Other(format!("Could not parse {} as float: {}", s, e)))
+        match s.parse::<f32>() {
+            Ok(f) if f.is_finite() => Ok(f),
+            Ok(_) => Err(RuntimeError::Overflow),
+            Err(e) => Err(RuntimeError::Other(format!(
+                "Could not parse {} as float: {}",
+                s, e
+            ))),
+        }
     }
 }
 
@@ -99,15 +104,6 @@ fn parse_double_input(s: String) -> Result<f64, RuntimeError> {
                 s, e
             ))),
         }
-    }
-}
-
-fn parse_int_input(s: String) -> Result<i32, RuntimeError> {
-    if s.is_empty() {
-        Ok(0)
-    } else {
-        s.parse::<i32>()
-            .map_err(|e| RuntimeError::Other(format!("Could not parse {} as int: {}", s, e)))
     }
 }
 
